@@ -156,6 +156,13 @@ ElemLiteralResult::init(
                 needToProcess = false;
             }
         }
+        else if (equals(aname, DOMServices::s_XMLNamespace) == true)
+        {
+            // The default namespace declaration is not an attribute
+            // either: it is output (or excluded, or aliased) with the
+            // other namespace nodes of the element.
+            needToProcess = false;
+        }
 
         if (needToProcess == true)
         {
